@@ -166,6 +166,26 @@ Proof.
 Qed.
 Print Assumptions no_touch_after_reclaim_refuted.
 
+(* PARTIAL (proved): what does hold for every number of fibers and every usage.
+   Once the target has been handed to free(), (1) the target itself never runs
+   again, and (2) no fiber is still in the middle of the waker's accesses to it
+   (`to_schedule->state = READY; schedule(to_schedule)` with to_schedule = the
+   target): the operation that released the fiber, and the fiber itself, are
+   done with it before it is freed.  (With reclaim_once...: the only accesses
+   after the free come from OTHER calls on the handle that overlap the release
+   or begin after it - F-C04b.)
+   NOT PROVED (what is missing): the intended positive statement "guarded mode,
+   ONE client fiber => touched = false".  It needs a product invariant over
+   (phase of the target, phase of the client, detach_state, slot) that was not
+   built; it is validated only by the lock-step monitor (tools/vf/props/C04.py,
+   case family `single_client_long`: no touch after reclaim in any such run). *)
+Theorem no_touch_after_reclaim_partial :
+  forall g progs x, ireach g progs x -> reclaims (base x) <> 0 ->
+    stk (base x) tgt = [] /\
+    forall u X, stk (base x) u <> [FStWrite tgt ST_READY; FC X].
+Proof. intros g progs x R. exact (reclaimed_quiet x (ireach_inv g progs x R)). Qed.
+Print Assumptions no_touch_after_reclaim_partial.
+
 (* ---- an additional falsehood found on the way (F-C04d) -------------------------
    "a detached fiber that finishes is reclaimed" is false: a join racing with the
    detach overwrites DETACHED with WAIT_TO_JOIN; the detach returned SUCCESS, the
